@@ -43,6 +43,8 @@ DIFFERENT = [
      "def f(a, b, xs):\n    def _helper1(c_, k_, v_):\n        c_[k_] = v_\n    r = {}\n    t2 = len(r)\n    for t1 in xs:\n        _helper1(r, t1, a - t1)\n    return t2\n"),
     ("def f(a):\n    def _helper2(t1):\n        return (ys.extend([t1 - 1]), len(ys))[1]\n    ys = []\n    t2 = _helper2(a)\n    return (a, ys)\n",
      "def f(a):\n    def _helper2(t1):\n        return (ys.extend([t1 - 0]), len(ys))[1]\n    ys = []\n    t2 = _helper2(a)\n    return (a, ys)\n"),
+    # a fresh list handed to a call made for its effect is one object, not the display `[]` (len([]) folded to 0)
+    ("def f(a):\n    ys = []\n    grow(ys, 2)\n    t1 = len(ys)\n    return (t1 * a + -(0 + t1), ys)\n", "def f(a):\n    ys = []\n    grow(ys, 2)\n    t1 = len(ys)\n    return (t1 * a + -(0 * t1), ys)\n"),
 ]
 SAME = [
     ("def f(sub, st):\n    tot = sum([sub[k].m * v for k, v in st.items()])\n    return {k: sub[k].m * v / tot for k, v in st.items()}\n",
